@@ -286,6 +286,13 @@ class SuperRef(V):
 
 
 @dataclass(eq=False)
+class StarV(V):
+    """`*collection_of_collections` passed as arguments (set().union(*map(f, xs))): the callee receives every element."""
+
+    v: V
+
+
+@dataclass(eq=False)
 class PartialV(V):
     """functools.partial(fn, *args, **kwargs)."""
 
@@ -637,6 +644,11 @@ class Interp:
         if len(rets) == 1:
             return rets[0][1]
         vals = [v for _, v in rets]
+        if all(isinstance(v, TupleV) for v in vals) and len({len(v.items) for v in vals}) == 1:
+            cur = vals[-1]
+            for g, v in reversed(rets[:-1]):
+                cur = self.join_ite(g, v, cur)
+            return cur
         if any(isinstance(v, BoolV) or (isinstance(v, Const) and isinstance(v.value, bool)) for v in vals) and not any(isinstance(v, (Coll, TupleV, Obj)) for v in vals):
             # a predicate: the truth of its result
             return BoolV(disj(conj([g, self.truth(v)]) for g, v in rets))
@@ -905,6 +917,8 @@ class Interp:
     def join_ite(self, c: Formula, v1: V, v2: V) -> V:
         if v1 is v2:
             return v1
+        if isinstance(v1, TupleV) and isinstance(v2, TupleV) and len(v1.items) == len(v2.items):
+            return TupleV([self.join_ite(c, a, b) for a, b in zip(v1.items, v2.items)])
         if isinstance(v1, AltV) or isinstance(v2, AltV) or any(isinstance(x, (Fn, Obj, ClassRef, Opaque, BoundAPI, SuperRef, MapV, EnumV, DictV, DictCompV, PartialV)) for x in (v1, v2)):
             if not (isinstance(v1, Coll) or isinstance(v2, Coll)):
                 return self.mk_alt([(c, v1), (f_not(c), v2)])
@@ -1167,10 +1181,27 @@ class Interp:
         self.note(f"loop `{norm(lp.node, 50) if lp.node is not None else lp.sym}` is left by break: elements after the break are not processed")
         lp.broken = True
 
+    def simplify_under(self, f: Formula, ctx: Formula) -> Formula:
+        """`f` with the atoms decided by the context replaced by their value."""
+        shared = atoms_of(f) & atoms_of(ctx)
+        if not shared or len(atoms_of(ctx)) > MAX_ATOMS:
+            return f
+        for a in sorted(shared):
+            if valid(ctx, atom(a)):
+                f = subst_atom(f, a, TRUE)
+            elif valid(ctx, f_not(atom(a))):
+                f = subst_atom(f, a, FALSE)
+        return f
+
     def exists(self, g: Formula, var: str) -> Formula:
         dep = sorted(a for a in atoms_of(g) if mentions(a, var))
         if not dep:
             return g
+        if len(dep) > 1:
+            g = self.simplify_under(g, self.guard())
+            dep = sorted(a for a in atoms_of(g) if mentions(a, var))
+            if not dep:
+                return g
         if len(dep) == 1:
             a = dep[0]
             g1, g0 = subst_atom(g, a, TRUE), subst_atom(g, a, FALSE)
@@ -1345,10 +1376,15 @@ class Interp:
 
     def coll_extend(self, fr: Frame, c: Coll, other: V, node: ast.AST) -> None:
         g = self.guard()
+        if isinstance(other, StarV):
+            self.flatten_into(fr, c, other.v, node)
+            return
         if isinstance(other, TupleV):
             for it in other.items:
                 self._add_value(c, it, g, fr.fi, node)
             return
+        if isinstance(other, (Elem, Importee, Anc)):
+            self.note(f"{fr.fi.qualname}: a single name is used as a collection of characters ({norm(node, 40)})")
         o = self.as_coll(other)
         if o is c:
             return
@@ -1356,6 +1392,21 @@ class Interp:
         for p in o.parts:
             c.parts.append(replace(p, guard=conj([p.guard, g]), partial=p.partial or imp))
         c.removals += o.removals
+
+    def flatten_into(self, fr: Frame, out: Coll, v: V, node: ast.AST) -> None:
+        """Every element of every collection that `v` yields is added to `out` (chain.from_iterable, update(*xs))."""
+        for value, g, lp, _ckey in self.iteration_plan(fr, v, node):
+            self.frames.append(g)
+            saved = self.loops
+            self.loops = [*self.loops, lp if lp is not None else Loop(f"u{len(self.loops)}", Coll(), node, fr.fi)]
+            try:
+                inner = self.loop_value(fr, value, lp, node)
+                self.frames[-1] = conj([self.frames[-1], self.take_run_conds()])
+                self.coll_extend(fr, out, inner, node)
+            finally:
+                self.loops[-1].active = False
+                self.loops = saved
+                self.frames.pop()
 
     def copy_of(self, v: V, label: str = "") -> Coll:
         c = self.as_coll(v)
@@ -1381,6 +1432,13 @@ class Interp:
             elif p.kind == "filter":
                 alts.append(conj([rename_sym(p.guard, p.sym, k), self.member(v, p.src)]))
             elif p.kind == "adds":
+                r = root_elem(v)
+                same_kind = (p.what == "self" and isinstance(v, Importee) and p.items[:1] == ("import",)) or (p.what == "parents" and isinstance(v, Anc) and isinstance(v.of, Importee) and p.items[:1] == ("import",)) or (p.what == "parents" and isinstance(v, Anc) and isinstance(v.of, Elem) and p.items[:1] == ("name",))
+                if r is not None and same_kind and p.src is not None and r.loop is not p.loop and r.loop.src.parts == p.src.parts:
+                    # the names of all elements of the very collection the element is taken from: it is among them when the
+                    # condition of the part holds for it
+                    alts.append(rename_sym(p.guard, p.sym, r.sym))
+                    continue
                 # names added earlier by the same loop (de-duplication against the accumulator): tagged with the loop
                 tag = f"@L{p.loop.serial}" if p.loop is not None else ""
                 alts.append(self.free(f"IN[{k},{p.what}-of-{c.label or 'collection'}{tag}]", taint_of(v)))
@@ -1451,6 +1509,12 @@ class Interp:
             return self.nonempty(v)
         if isinstance(v, TupleV):
             return TRUE if v.items else FALSE
+        if isinstance(v, Obj):
+            for name in ("__bool__", "__len__"):
+                m = self.repo.lookup_method(v.cls, name)
+                if m is not None and self.transparent_func(m):
+                    return self.truth(self.call_function(m, [], {}, v, None))
+            return TRUE
         if isinstance(v, Opaque) and "EXT" in v.taint:
             # an object with __bool__ / __len__ built from the patterns: true when there are patterns
             for ci in self.repo.classes.values():
@@ -1883,6 +1947,8 @@ class Interp:
                 v = self.ev(fr, a.value)
                 if isinstance(v, TupleV):
                     args += v.items
+                elif isinstance(v, (Coll, MapV, DictCompV, AltV)) or (isinstance(v, Unknown) and (hasattr(v, "_coll") or v.taint & {"PARSED", "CONVERTED"})):
+                    args.append(StarV(v))
                 else:
                     self.note(f"{fr.fi.qualname}: star-argument {norm(a, 30)} not expanded")
                     args.append(v)
@@ -2002,9 +2068,12 @@ class Interp:
             for a in args:
                 self.coll_extend(fr, out, a, e)
             return out
-        if name in ("itertools.chain.from_iterable", "chain.from_iterable"):
-            self.note(f"{fr.fi.qualname}: chain.from_iterable not modelled")
-            return Unknown("chain.from_iterable(..)", t)
+        if name in ("itertools.chain.from_iterable", "chain.from_iterable") and len(args) == 1:
+            out = Coll(label="chain.from_iterable(..)")
+            self.flatten_into(fr, out, args[0], e)
+            return out
+        if name in ("functools.reduce", "reduce") and len(args) in (2, 3):
+            return self.builtin_reduce(fr, args, e)
         if name == "filter" and len(args) == 2:
             return self.builtin_filter(fr, args[0], args[1], e, keep=True)
         if name in ("itertools.filterfalse", "filterfalse") and len(args) == 2:
@@ -2045,6 +2114,42 @@ class Interp:
         if name.endswith("Exception") or name.endswith("Error"):
             return Opaque(name, t)
         return Unknown(f"{name}({','.join(key(a) for a in args)})", t)
+
+    def builtin_reduce(self, fr: Frame, args: list, e: ast.Call) -> V:
+        """reduce(f, xs, init) where f returns its accumulator extended: the initial collection plus what one generic step adds."""
+        f, xs = args[0], args[1]
+        if len(args) < 3:
+            self.note(f"{fr.fi.qualname}: reduce without initial value not modelled")
+            return Unknown("reduce(..)", self._taints(args, {}))
+        acc = self.copy_of(args[2])
+        n0 = len(acc.parts)
+        first = list(acc.parts)
+        ok = True
+        for value, g, lp, _ckey in self.iteration_plan(fr, xs, e):
+            self.frames.append(g)
+            saved = self.loops
+            self.loops = [*self.loops, lp if lp is not None else Loop(f"u{len(self.loops)}", Coll(), e, fr.fi)]
+            try:
+                el = self.loop_value(fr, value, lp, e)
+                self.frames[-1] = conj([self.frames[-1], self.take_run_conds()])
+                res = self.call_value(fr, f, [acc, el], {}, e)
+            finally:
+                self.loops[-1].active = False
+                self.loops = saved
+                self.frames.pop()
+            if res is acc:
+                continue  # extended in place and handed back
+            rc = self.as_coll(res) if isinstance(res, (Coll, AltV, TupleV)) else None
+            if rc is not None and len(rc.parts) >= n0 and all(any(q is p or q == p or (q.kind == p.kind and q.base == p.base and q.src is p.src and q.items == p.items and q.node is p.node) for q in rc.parts) for p in first):
+                # a new collection that contains the accumulator: keep what was added
+                extra = [q for q in rc.parts if not any(q is p or (q.kind == p.kind and q.base == p.base and q.src is p.src and q.items == p.items and q.node is p.node) for p in acc.parts)]
+                acc.parts += extra
+                continue
+            ok = False
+        if not ok:
+            self.note(f"{fr.fi.qualname}: reduce with a step function that does not hand back its (extended) accumulator is not modelled")
+            return Unknown("reduce(..)", self._taints(args, {}))
+        return acc
 
     def builtin_filter(self, fr: Frame, pred: V, src: V, e: ast.Call, keep: bool) -> V:
         c = self.as_coll(src)
@@ -2171,7 +2276,27 @@ class Interp:
             return Unknown(f"{key(c)}.items()")
         if attr == "__contains__" and args:
             return BoolV(self.member(args[0], c))
-        if attr in ("issubset", "issuperset", "isdisjoint", "count", "index"):
+        if attr in ("issubset", "issuperset", "isdisjoint") and len(args) == 1:
+            a, b = (c, self.as_coll(args[0])) if attr != "issuperset" else (self.as_coll(args[0]), c)
+            # isdisjoint: no element of one is in the other;  a <= b: no element of a is outside b
+            if attr == "isdisjoint":
+                a, b = b, a  # iterate the argument (usually the small, per-element collection)
+            alts = []
+            for value, g, lp, ckey in self.iteration_plan(fr, a, e):
+                saved = self.loops
+                self.loops = [*self.loops, lp if lp is not None else Loop(f"u{len(self.loops)}", Coll(), e, fr.fi)]
+                try:
+                    el = self.loop_value(fr, value, lp, e)
+                    m = self.member(el, b)
+                    f_ = conj([g, self.take_run_conds(), m if attr == "isdisjoint" else f_not(m)])
+                finally:
+                    self.loops[-1].active = False
+                    self.loops = saved
+                if ckey is not None:
+                    f_ = self.exists(f_, ckey)
+                alts.append(f_)
+            return BoolV(f_not(disj(alts)))
+        if attr in ("count", "index"):
             return Unknown(f"{key(c)}.{attr}(..)", self._taints(args, kwargs))
         return Unknown(f"{key(c)}.{attr}(..)", self._taints(args, kwargs))
 
